@@ -649,6 +649,27 @@ def c12_determinism(seed, tier):
                     continue
                 archives.append(read_file(out))
                 os.unlink(out)
+            # a run with a history on disk: what an interrupted or failed earlier compress leaves behind - a temp
+            # file (longer than the new chunk data) and an output (longer than the new archive), overwritten with -f
+            out = W.fresh(".cba")
+            with open(out, "wb") as fo:
+                fo.write(rng.randbytes(len(src) + 100000))
+            stale = os.path.splitext(out)[0] + "..tmp"
+            with open(stale, "wb") as fo:
+                fo.write(rng.randbytes(len(src) + 70000))
+            args = ["compress"] + cfg_args + ["--hash-length", str(hash_len), "--compression", compression, "--buffered-chunks", "4", "-f"]
+            if level is not None:
+                args += ["--compression-level", str(level)]
+            p3 = subprocess.run([bita()] + args + ["-i", W.write(src, ".src"), out], stdout=subprocess.PIPE, stderr=subprocess.PIPE,
+                                stdin=subprocess.DEVNULL, env=dict(os.environ, RUST_BACKTRACE="0"), timeout=300)
+            R.stat("runs_over_leftovers_of_an_earlier_run")
+            if p3.returncode != 0:
+                R.fail("compress-%s" % classify(p3.returncode), desc + " over leftovers (-f, stale temp file)")
+            else:
+                archives.append(read_file(out))
+            for leftover in (out, stale):
+                if os.path.exists(leftover):
+                    os.unlink(leftover)
             lib, err = lib_compress(W, src, cfg_tok, hash_len, compression, level, 3, [], rng.choice([0, 1, 13, 65536]))
             if lib is not None:
                 archives.append(lib)
